@@ -8,7 +8,7 @@
  "specs": {"util/insecure_memzero.c": "contracts/util__insecure_memzero.c.drbg.spec"},
  "expect_loops": ["insecure_memzero_func"],
  "defines": ["VERIF_HALLOC", "HM_DMAX=0", "HM_LOGN=3"],
- "matrix": {"DR_GEN_PART": [1, 2, 3]},
+ "matrix": {"DR_GEN_PART": [1, 2, 3, 4]},
  "models": ["models/drbg_hmac.c", "models/drbg_os.c"],
  "timeout": 600,
  "assumptions": ["HMAC-SHA256 is an abstract leaf (models/drbg_hmac.c): its conformance is C01's",
@@ -29,8 +29,10 @@ h_generate(void)
 	__CPROVER_assume(drbg.reseed_counter <= RESEED_INTERVAL);
 	instantiated = 1;
 	IN(int, monitored);
+	/* position monitor (a pure call-site obligation: generate() never reads these ghosts) */
+	IN(size_t, done0);
 	g_ce_base = monitored ? buf : NULL;
-	g_ce_done = 0;
+	g_ce_done = monitored ? 0 : done0;
 	uint32_t ctr0 = drbg.reseed_counter;
 	size_t nb = (buflen + 31) / 32;
 
